@@ -131,7 +131,7 @@ def evaluate(name, checks, tier, budget, procs=0):
         shutil.rmtree(outdir, ignore_errors=True)
     rp = os.path.join(d, "result.json")
     old = json.load(open(rp)) if os.path.exists(rp) else []
-    old = [r for r in old if not any(r["check"] == n["check"] and r["tier"] == n["tier"] for n in results)] + results
+    old = [r for r in old if not any(r["check"] == n["check"] and r["tier"] == n["tier"] and (r.get("budget") or 0) == (n.get("budget") or 0) for n in results)] + results
     json.dump(old, open(rp, "w"), indent=1)
 
 
@@ -154,7 +154,8 @@ def table():
             st = "caught" if r["caught"] else ("missed" if r["exit"] == 0 else "infra")
             rows.append((name, r["check"], r["tier"], st, ", ".join(r["signatures"][:2]), title))
             e = per.setdefault(name, {"title": title, "caught_by": [], "missed_by": [], "sigs": {}})
-            (e["caught_by"] if st == "caught" else e["missed_by"]).append(r["check"] + ("" if r["tier"] == "quick" else "(" + r["tier"] + ")"))
+            label = r["check"] + ("" if r["tier"] == "quick" and not r.get("budget") else "(" + r["tier"] + (", %d s" % r["budget"] if r.get("budget") else "") + ")")
+            (e["caught_by"] if st == "caught" else e["missed_by"]).append(label)
             if st == "caught":
                 e["sigs"][r["check"]] = r["signatures"][0] if r["signatures"] else ""
     with open(os.path.join(SEEDED, "TABLE.md"), "w") as f:
